@@ -166,6 +166,13 @@ impl NodeCtx {
                     j["_history_total"] = json!(ht);
                     j["_history"] = serde_json::to_value(&hl)?;
                 }
+                // the server must also be found through its unique key (the look-up the MCP gateway uses): a map of its own
+                let by_key = match app.mcp_manager.send(McpManagerReq::GetServerByKey(sv.unique_key.clone())).await?? {
+                    McpManagerResult::ServerInfo(Some(x)) => json!(x.id),
+                    McpManagerResult::ServerInfo(None) => Value::Null,
+                    _ => json!("unexpected answer"),
+                };
+                j["_found_by_unique_key"] = by_key;
                 servers.push(j);
             }
             let mut sm = serde_json::Map::new();
